@@ -161,6 +161,14 @@ func c20File(path, pkg, syntaxName string) *descriptorpb.FileDescriptorProto {
 	uname := "." + pkg + ".U"
 	u := &descriptorpb.DescriptorProto{Name: proto.String("U")}
 	u.Field = []*descriptorpb.FieldDescriptorProto{c20Field("i", 1, descriptorpb.FieldDescriptorProto_TYPE_INT32, opt, "")}
+	// types NESTED in U that carry the simple names of the file-level enum E and message T (U.E has the number 9, E does
+	// not): a type is identified by its full name, never by its simple name
+	u.EnumType = []*descriptorpb.EnumDescriptorProto{
+		{Name: proto.String("E"), Value: []*descriptorpb.EnumValueDescriptorProto{ev("NE0", 0), ev("NE1", 1), ev("NE9", 9)}},
+	}
+	u.NestedType = []*descriptorpb.DescriptorProto{
+		{Name: proto.String("T"), Field: []*descriptorpb.FieldDescriptorProto{c20Field("i", 1, descriptorpb.FieldDescriptorProto_TYPE_INT32, opt, "")}},
+	}
 	k.Field = append(k.Field, c20Field("r_enumf", num, descriptorpb.FieldDescriptorProto_TYPE_ENUM, rep, "."+pkg+".F"))
 	num++
 	c20MapField(k, kname, "mv_enumf", num, descriptorpb.FieldDescriptorProto_TYPE_STRING, descriptorpb.FieldDescriptorProto_TYPE_ENUM, "."+pkg+".F")
